@@ -971,6 +971,32 @@ class Models(object):
             if not isb:
                 self.assumptions.add('str.strip(): whitespace = ASCII whitespace + \\x1c..\\x1f (exact for ASCII text)')
             return [(path, mk(r))]
+        if name in ('strip', 'lstrip', 'rstrip') and len(args) <= 1:
+            # general form: strip / lstrip / rstrip with an optional concrete character set
+            ok, c = concrete_of(s)
+            okc, chars = concrete_of(args[0]) if args else (True, None)
+            if ok and okc:
+                return [(path, lift(getattr(c, name)(chars) if chars is not None else getattr(c, name)()))]
+            if okc:
+                if chars is None:
+                    chars = WS if isb else WS_STR
+                elif isinstance(chars, bytes):
+                    chars = chars.decode('latin-1')
+                if len(chars) == 0:
+                    return [(path, s)]
+                r = ex.fresh_str(path, name)
+                a = ex.fresh_str(path, 'lcut') if name != 'rstrip' else None
+                b = ex.fresh_str(path, 'rcut') if name != 'lstrip' else None
+                parts = ([a] if a is not None else []) + [r] + ([b] if b is not None else [])
+                ax = [s.t == (z3.Concat(*parts) if len(parts) > 1 else r)]
+                if a is not None:
+                    ax += [z3.InRe(a, z3.Star(re_ws(chars))),
+                           z3.Or(z3.Length(r) == 0, z3.Not(is_ws_char(z3.SubString(r, 0, 1), chars)))]
+                if b is not None:
+                    ax += [z3.InRe(b, z3.Star(re_ws(chars))),
+                           z3.Or(z3.Length(r) == 0, z3.Not(is_ws_char(z3.SubString(r, z3.Length(r) - 1, 1), chars)))]
+                path.assume_def([x for x in (r, a, b) if x is not None], ax)
+                return [(path, mk(r))]
         if name in ('lower', 'upper') and not args:
             ok, c = concrete_of(s)
             if ok:
